@@ -2,6 +2,7 @@
 import collections
 
 import batflow
+from props import c09
 import progflow
 from vlib import Infra
 
@@ -13,6 +14,8 @@ RULE = ("direction A: TLC enumerates spec/FamC10.tla: 12 base programs covering 
         "expectation of its base) is checked on every case. Batch side: for every renamed program without file/command builtins the REAL Batch converter's script is parsed into units "
         "and executed by TLC under spec/CmdExe.tla, in which variable names and labels fold letter case (R4, R7); stdout and status must equal the reference. The catalogue holds the "
         "Batch back-end's own names in both cases (_E, _LEN, lf, F1_SUM, _SAH, ...), every pair of variables and both functions of a program spelled alike up to case. "
+        "Across files (spec/FamC10Imp.tla): the importing file's globals, functions, parameters and locals - and a second or a transitively imported file's private names - spelled "
+        "like an import's private and public names; linked by TshModules, Bash run validated against TshDyn, all spellings of a group must have one expectation. "
         "Distinct = distinct renamed source text.")
 ASSUME = ["a renaming that the transpiler refuses with an error satisfies the property", "there is no cmd.exe in the sandbox: the Batch script runs under spec/CmdExe.tla (rules R1-R12), which states that set/!name!/labels are case-insensitive"]
 
@@ -62,4 +65,16 @@ def run(ctx):
             nbat += 1
             ctx.traces_validated += 1
     batflow.check_blind(ctx, len(keep))
+    # across file boundaries (spec/FamC10Imp.tla): the importing file, or a second import, spells its names like an import's private and public names
+    imp = ctx.tlc_family("FamC10Imp", constants={"Tier": '"%s"' % ctx.tier}, timeout=3000)
+    res = c09.judge_cases(ctx, imp, tag="imp")
+    groups = {}
+    for cid, (c, v) in res.items():
+        g = cid.split("/")[2]
+        groups.setdefault("one" if g in ("one", "all", "base") else g, set()).add((v["out"], v["code"]))
+    for g, outs in groups.items():
+        if len(outs) != 1:
+            raise Infra("the specification is not alpha-invariant on the import family %s: %d different expectations" % (g, len(outs)))
+    if len(res) < len(imp):
+        raise Infra("import family: %d of %d programs were not linked, accepted and run" % (len(imp) - len(res), len(imp)))
     return ctx.finish(rule=RULE, assumptions=ASSUME, extra={"batch_runs_compared": nbat, "notes": ctx.notes})
